@@ -10,6 +10,7 @@ import (
 
 	_ "github.com/scigolib/hdf5/verifsim/e1"
 	"github.com/scigolib/hdf5/verifsim/harness"
+	"github.com/scigolib/hdf5/verifsim/trace"
 )
 
 func main() {
@@ -29,6 +30,8 @@ func main() {
 			os.Exit(2)
 		}
 		os.Exit(harness.Replay(os.Args[2]))
+	case "mkknown":
+		os.Exit(cmdMkKnown(os.Args[2:]))
 	case "gen":
 		os.Exit(cmdGen(os.Args[2:]))
 	default:
@@ -98,5 +101,43 @@ func cmdGen(args []string) int {
 	}
 	os.Stdout.Write(harness.GenTrace(p, *seed, *tier, *idx).JSON())
 	fmt.Println()
+	return 0
+}
+
+// cmdMkKnown executes a trace and stores it with the observed signature as a
+// replay file (used to create the committed replay files of known findings).
+func cmdMkKnown(args []string) int {
+	if len(args) < 2 {
+		return 2
+	}
+	t, err := trace.Load(args[0])
+	if err != nil {
+		fmt.Fprintln(os.Stderr, err)
+		return 2
+	}
+	p := harness.Registry[t.Property]
+	if p == nil {
+		return 2
+	}
+	dir := harness.ScratchDir("mkknown")
+	defer os.RemoveAll(dir)
+	res := harness.SafeExec(p, t, dir)
+	if len(res.Violations) == 0 {
+		fmt.Println("no violation")
+		return 1
+	}
+	v := res.Violations[0]
+	if len(args) > 2 {
+		for _, x := range res.Violations {
+			if x.Signature() == args[2] {
+				v = x
+			}
+		}
+	}
+	t.Expect = &trace.Expect{Signature: v.Signature(), Observation: v.Detail}
+	if err := t.Save(args[1]); err != nil {
+		return 2
+	}
+	fmt.Println(v.Signature())
 	return 0
 }
